@@ -448,8 +448,19 @@ func init() {
 						}
 						// the same members as a collection of lines: length weighted too
 						var coll orb.Collection
-						for _, ls := range mls {
-							coll = append(coll, ls)
+						for i, ls := range mls {
+							if i > 0 && r.Bool() {
+								// nested: the member is itself a collection of lines (weighted by its total length)
+								coll = append(coll, orb.Collection{ls})
+							} else if i > 0 && r.P(1, 3) && len(coll) > 0 {
+								if inner, ok := coll[len(coll)-1].(orb.Collection); ok {
+									coll[len(coll)-1] = append(inner, ls)
+								} else {
+									coll = append(coll, orb.MultiLineString{ls})
+								}
+							} else {
+								coll = append(coll, ls)
+							}
 						}
 						cc, _ := planar.CentroidArea(coll)
 						c.Eval()
@@ -463,8 +474,15 @@ func init() {
 					}
 					// a collection of points: count weighted
 					var pc orb.Collection
-					for _, p := range mpt {
-						pc = append(pc, p)
+					for i, p := range mpt {
+						switch {
+						case i > 0 && r.P(1, 3):
+							pc = append(pc, orb.Collection{p}) // nested collection of points (weighted by its number of points)
+						case i > 0 && r.P(1, 3):
+							pc = append(pc, orb.MultiPoint{p})
+						default:
+							pc = append(pc, p)
+						}
 					}
 					cc, _ := planar.CentroidArea(pc)
 					c.Eval()
@@ -480,7 +498,14 @@ func init() {
 				Name: "float-rings", Count: h.Fixed(5000, 250000),
 				Run: func(c *h.Ctx, idx uint64, r *h.Rand) {
 					sc := math.Pow(10, float64(r.Range(-3, 5)))
-					open := gen.Star(r, r.Range(3, 12), r.Uniform(-10, 10)*sc, r.Uniform(-10, 10)*sc, 0.3*sc, sc, 0)
+					ox, oy := r.Uniform(-10, 10)*sc, r.Uniform(-10, 10)*sc
+					if r.P(1, 3) {
+						// a small ring far from the origin (the shoelace must not lose it to cancellation)
+						sc = r.Uniform(1, 100)
+						ox, oy = r.Uniform(-1, 1)*math.Pow(10, float64(r.Range(5, 8))), r.Uniform(-1, 1)*math.Pow(10, float64(r.Range(5, 8)))
+						c.Count("far_from_origin_rings", 1)
+					}
+					open := gen.Star(r, r.Range(3, 12), ox, oy, 0.3*sc, sc, 0)
 					closed := gen.Close(open)
 					ring := pToRing(closed)
 					cxE, cyE, a2 := exactCentroid(open)
@@ -488,6 +513,9 @@ func init() {
 					ctr, area := planar.CentroidArea(ring)
 					c.Eval()
 					ext, scale := extentOf(open)
+					if a := planar.Area(ring); !(math.Abs(a-wantA) <= 1e-9*math.Abs(wantA)+1e-13*ext*ext) {
+						c.Fail("", "planar.Area of a float ring is not within 1e-9 of the exact value", map[string]interface{}{"ring": closed, "got": a, "want": wantA})
+					}
 					// cancellation in the float shoelace is bounded by eps * extent^2 per term
 					if !(math.Abs(area-wantA) <= 1e-9*math.Abs(wantA)+1e-13*ext*ext) {
 						c.Fail("", "planar area of a float ring is not within 1e-9 of the exact value", map[string]interface{}{"ring": closed, "got": area, "want": wantA})
